@@ -27,9 +27,9 @@ T8_TYPES = {"Node": "Node", "NodeToInsert": "NodeToInsert", "NodeDeletionEntry":
 WANTED = {"RoomAuthorisations": ["validate_node", "validate_node_deletions", "validate_edge_deletions"]}
 # the fields of each structure that the types file declares (name -> lean type text); checked against the Rust structs
 DECLARED = {
-    "Node": {"room_id": "Option<Uid>", "verifying_key": "Vec<u8>", "mdate": "i64"},
+    "Node": {"room_id": "Option<Uid>", "verifying_key": "Vec<u8>", "mdate": "i64", "_entity": "String"},
     "NodeToInsert": {"node": "Option<Node>", "entity_name": "Option<String>", "old_room_id": "Option<Uid>",
-                     "old_mdate": "i64", "old_verifying_key": "Option<Vec<u8>>"},
+                     "old_entity": "Option<String>", "old_mdate": "i64", "old_verifying_key": "Option<Vec<u8>>"},
     "NodeDeletionEntry": {"room_id": "Uid", "id": "Uid", "mdate": "i64", "deletion_date": "i64",
                           "verifying_key": "Vec<u8>", "entity_name": "Option<String>"},
     "EdgeDeletionEntry": {"room_id": "Uid", "src": "Uid", "dest": "Uid", "cdate": "i64", "deletion_date": "i64",
